@@ -25,6 +25,7 @@ func init() {
 	registerRule("R30", func(c *Ctx) { c.run("R21") })
 	registerRule("R35", ruleR35)
 	registerRule("R43", ruleR43)
+	registerRule("R44", ruleR44)
 	registerRule("R42", ruleR42)
 	registerRule("R36", ruleR36)
 	registerRule("R41", ruleR41)
@@ -46,12 +47,12 @@ func init() {
 	registerRule("R28", func(c *Ctx) { c.run("R27") })
 
 	registerProp(&propSpec{ID: "C01", Level: "other",
-		Rules: []string{"R01", "R02", "R03", "R05", "R37", "R21", "R22", "R24", "R41", "R36", "R43", "R10", "R19"},
+		Rules: []string{"R01", "R02", "R03", "R05", "R37", "R21", "R22", "R24", "R41", "R36", "R43", "R10", "R19", "R44"},
 		Explain: "Static clauses of 'exact map under any history', decided on the type-checked source of every copy of the tree code (5 generated kinds + collation): " +
 			"R01 every index/slice of a caller-controlled key is dominated by the length fact it needs (so probing an absent key cannot fault on a key index); " +
 			"R02 every success outcome of Search/Delete and the value overwrite of Insert is dominated by the true edge of the full-key comparison with the stored form restoreKey returns; " +
 			"R03 on every CFG path of every Insert the set of link/relink/overwrite/size events is one of the accepted ones (nothing dropped, nothing double-counted); " +
-			"R05 the keys of each kind are prefix-free for a structural reason, which is what makes the key-exhausted edges of Insert infeasible. R21/R22/R24/R37/R41/R43 grow/shrink and add/delete of a child keep every registered child: the replacement node receives header, keys and children, capacity guards equal the array lengths, an addChild stores exactly one child and bumps the fan-out once, a size class whose deleteChild leaves holes never takes slot childrenLen, every deleteChild path vacates the slot; R36 the hand-written collation copy agrees with the compound instantiation of the template on node-layer calls, stores and position comparisons; R10 loops over a 256-entry byte table visit all 256 entries; R19 a search result is used as an index only when it is not the not-found value and (4-lane search) below the fill count.",
+			"R05 the keys of each kind are prefix-free for a structural reason, which is what makes the key-exhausted edges of Insert infeasible. R21/R22/R24/R37/R41/R43 grow/shrink and add/delete of a child keep every registered child: the replacement node receives header, keys and children, capacity guards equal the array lengths, an addChild stores exactly one child and bumps the fan-out once, a size class whose deleteChild leaves holes never takes slot childrenLen, every deleteChild path vacates the slot; R36 the hand-written collation copy agrees with the compound instantiation of the template on node-layer calls, stores and position comparisons; R10 loops over a 256-entry byte table visit all 256 entries; R19 a search result is used as an index only when it is not the not-found value and (4-lane search) below the fill count; R44 the result of findChild is dereferenced only when it is not nil.",
 		NotDecided: "That descent, split and merge compute the right byte positions (compressed-path arithmetic, the 10-byte inline limit), and all value-level behaviour of the SWAR/SIMD node search: these quantify over runtime values and are out of reach of a static rule."})
 	registerProp(&propSpec{ID: "C06", Level: "other",
 		Rules: []string{"R03", "R04", "R05", "R14"},
@@ -72,7 +73,7 @@ func init() {
 		Explain:    "Range: R12 the scan and the open-end bound are guarded against an empty tree (nil root, nil maximum); R11 the key depth is carried per stack entry, not per scan; R13 every yield is dominated by both leaf-level bound comparisons with the right argument roles, a key below the lower bound is skipped rather than ending the scan, callers normalise reversed bounds by a swap, the equal-bounds sequence yields only under a successful Search; R09 the scan enumerates children like the other traversals; R01 slicing of the bounds' common prefix is guarded; R08 the bounds get the same key normalisation as stored keys. R39 the scan ends only on an empty stack, a false yield or a key above the upper bound; R27 no captured state is mutated.",
 		NotDecided: "That the common-prefix pruning (skip a subtree whose compressed path mismatches the bounds' common prefix) never removes a subtree intersecting the range – a value-level argument about byte positions."})
 	registerProp(&propSpec{ID: "C04", Level: "other", DesignRef: "§4 C04",
-		Rules:      []string{"R13", "R40", "R39", "R11", "R10", "R06", "R09", "R01", "R12", "R27"},
+		Rules:      []string{"R13", "R40", "R39", "R11", "R10", "R06", "R09", "R01", "R12", "R27", "R44"},
 		Explain:    "Prefix: R13 every yield of the filtering scan is dominated by the predicate, which calls bytes.HasPrefix(stored key, requested prefix) in that argument order – so nothing that does not start with p is yielded; the subtree selector is a single-path descent (no worklist: R11), indexes the prefix only under a length guard (R01), never reads a leaf as an inner node (R06) and is only entered with a non-nil root (R12); R09/R10 the scan enumerates every child of every node kind with in-range indexes. R40 Prefix returns the filtering scan (or All() for the empty prefix) and nothing else; R39 the scan ends only on an empty stack or a false yield.",
 		NotDecided: "That the selector's byte-position arithmetic (prefixMismatch against compressed paths longer than the inline limit) returns a subtree containing every matching key."})
 	registerProp(&propSpec{ID: "C05", Level: "other", DesignRef: "§4 C05",
@@ -96,7 +97,7 @@ func init() {
 		Explain:    "Encoder/decoder sibling agreement of the three numeric codecs, per key type and target architecture (constant-folded bits.UintSize branches): R15 the type switches of Transform and Restore have an arm for every term of the constraint's type set; the encoding length equals unsafe.Sizeof of the key type; every encoding/binary call is on BigEndian with the width of the type; the sign-flip constant is exactly 1<<(8W-1) in both directions; float: shift 8W-1, sign constant, the offset is equal in both directions and ≥ 2, and the special codes {NaN→0, -Inf→1, +Inf→2^n-2} form the same table in both directions; R32 every reinterpreting cast is between pointer-free types of fitting size; R05 fixed width (prefix-free, concatenable).",
 		NotDecided: "The sign-magnitude→biased mask arithmetic itself and hence monotonicity/injectivity for every bit pattern: that needs enumeration or a solver, which static analysis excludes."})
 	registerProp(&propSpec{ID: "C10", Level: "other", DesignRef: "§4 C10", QuickArchs: []string{"amd64", "arm64", "386"},
-		Rules:      []string{"R19", "R09", "R10", "R22", "R20", "R37", "R41", "R43"},
+		Rules:      []string{"R19", "R09", "R10", "R22", "R20", "R37", "R41", "R43", "R44"},
 		Explain:    "R19 every use of a 4-lane SWAR search result as an index is under result < fill count (the search sees all four lanes, occupied or not), and deleteChild – the one unguarded user – is only called for a byte proven registered by findChild on the same reference; R09 the byte→child lookup of each size class and every inlined copy of it agree; R10 constant-range indexes fit [4]/[16]/[48]/[256]; R22 capacity guards equal the array lengths and shrink thresholds fit the smaller class; R20 each architecture sibling of the 16-lane routines (amd64 asm, arm64 asm, portable Go) makes its result depend on keys, fill count and probe byte, compares unsigned, and stores nothing but the result. R37 a class whose deleteChild leaves holes never takes slot childrenLen; R41 every deleteChild path vacates the slot; R43 every addChild path stores one child and bumps the fan-out once.",
 		NotDecided: "The SWAR/SIMD bit arithmetic (2^40 / 2^140 inputs): that insertPosNode4/16 return the sorted position and searchNode4 the first matching lane."})
 	registerProp(&propSpec{ID: "C11", Level: "other", DesignRef: "§4 C11",
